@@ -1,6 +1,24 @@
 """What is claimed. gen_manifest.py turns this into MANIFEST.json."""
 
-CLAIMED = {}
+T_SYMX = ("symbolic execution of the real Python source with z3-backed proxies (all feasible paths), "
+          "SMT verdict (unsat) per obligation against an independent oracle, counterexamples replayed on unpatched code")
+NOTE = ("trusted: z3 5.1, the symx proxy models (validated every run: one solver-chosen input per explored path is run "
+        "through the unpatched code and must give the predicted outcome), the oracle in /verif/spec; bounds and "
+        "exclusions are listed in the evidence file")
+
+CLAIMED = {
+    "C01": {
+        "text": "bounded symbolic checking: for every 56- and 112-bit frame (all bits and hex cases symbolic) the real "
+                "crc() equals the LFSR remainder mod 0x1FFF409, encode=True ignores the parity field and closes to "
+                "zero, crc is GF(2)-linear, and no error of weight 1-5 or burst <= 24 bits has a zero syndrome; the "
+                "demodulator admits a DF17 frame only with zero remainder. Not an unbounded proof: lengths are the "
+                "two legal ones.",
+        "design_ref": "DESIGN.md section 5 C01",
+        "note": NOTE,
+        "technique": T_SYMX + "; GF(2)-affine normal form for CRC bits; symbolic column indices into the syndrome "
+                              "table for weight-2/3/4/5 minimum-distance queries",
+    },
+}
 
 NOT_APPLICABLE = {
     "C20": "transcendental float numerics (numpy **, exp, sqrt, arccos on doubles): no SMT theory reaches the stated "
@@ -9,5 +27,5 @@ NOT_APPLICABLE = {
 
 # designed (DESIGN.md section 5) but the harness is not finished: not claimed, never checked with a weaker technique
 NOT_BUILT = {pid: "harness not built yet (DESIGN.md section 7.1 order of construction)" for pid in
-             ["C01", "C02", "C03", "C04", "C05", "C06", "C07", "C08", "C09", "C10", "C11", "C12", "C13", "C14",
+             ["C02", "C03", "C04", "C05", "C06", "C07", "C08", "C09", "C10", "C11", "C12", "C13", "C14",
               "C15", "C16", "C17", "C18", "C19"]}
